@@ -637,10 +637,15 @@ impl Drop for OsOpaqueIpcChannel {
     fn drop(&mut self) {
         // Make sure we don't leak!
         //
-        // The `OsOpaqueIpcChannel` objects should always be used,
-        // i.e. converted with `to_sender()` or `to_receiver()` --
-        // so the value should already be unset before the object gets dropped.
-        debug_assert!(self.fd == -1);
+        // The `OsOpaqueIpcChannel` objects are normally used,
+        // i.e. converted with `to_sender()` or `to_receiver()`, which unsets the value.
+        // A channel that was received but never converted
+        // (e.g. because the message was dropped undecoded, or decoding failed)
+        // still owns its descriptor, so close it here.
+        if self.fd >= 0 {
+            let result = unsafe { libc::close(self.fd) };
+            assert!(thread::panicking() || result == 0);
+        }
     }
 }
 
